@@ -7,14 +7,19 @@ use ruzstd::encoding::{CompressionLevel, MatchGeneratorDriver, Matcher, Sequence
 use serde_json::{json, Value};
 use std::io::Write;
 
-fn drive(m: &mut MatchGeneratorDriver, data: &[u8], lens: &[usize], skipmask: u32) -> Vec<Value> {
+/// Commits up to `lens[i]` bytes per block (fewer when the driver hands out a shorter space: the interface allows any
+/// length) and returns (lengths actually committed, per block report).
+fn drive(m: &mut MatchGeneratorDriver, data: &[u8], lens: &[usize], skipmask: u32) -> (Vec<usize>, Vec<Value>) {
     let mut pos = 0;
     let mut blocks = vec![];
+    let mut actual = vec![];
     for (bi, len) in lens.iter().enumerate() {
         let mut space = m.get_next_space();
-        space.truncate(*len);
+        let len = (*len).min(space.len());
+        space.truncate(len);
         space.copy_from_slice(&data[pos..pos + len]);
         pos += len;
+        actual.push(len);
         m.commit_space(space);
         if (skipmask >> bi) & 1 == 1 {
             m.skip_matching();
@@ -28,7 +33,7 @@ fn drive(m: &mut MatchGeneratorDriver, data: &[u8], lens: &[usize], skipmask: u3
             blocks.push(json!({"skip": false, "seqs": seqs}));
         }
     }
-    blocks
+    (actual, blocks)
 }
 
 /// c17rows <seed> <quick|thorough> <rows.ndjson> <report.json>
@@ -45,9 +50,11 @@ pub fn c17rows(args: &[String]) {
     let mut configs: Vec<(usize, Vec<Vec<usize>>)> = vec![
         (6, vec![vec![6], vec![5, 5], vec![6, 6], vec![5, 6], vec![6, 5], vec![3, 6, 5], vec![6, 2, 6], vec![5, 5, 4], vec![5, 2, 6], vec![6, 1, 6]]),
         (7, vec![vec![7, 7], vec![7, 6], vec![5, 2, 7]]),
+        // a new block that pushes out two entries at once (the second one long enough to be matched if it stayed)
+        (8, vec![vec![1, 6, 8]]),
     ];
     if !quick {
-        configs.push((8, vec![vec![8, 8], vec![8, 6], vec![4, 4, 8]]));
+        configs.push((8, vec![vec![8, 8], vec![8, 6], vec![4, 4, 8], vec![2, 6, 8]]));
         configs.push((5, vec![vec![5, 5, 5], vec![5, 5, 5, 5]]));
     }
     let mut emit = |row: Value, w: &mut std::io::BufWriter<std::fs::File>| {
@@ -88,14 +95,16 @@ pub fn c17rows(args: &[String]) {
                                     panics.push(json!({"slice": slice, "slices": slices, "lens": t, "data": data, "skipmask": skipmask, "panic": panic_msg(p)}));
                                 }
                             }
-                            Ok((ws, blocks)) => {
+                            Ok((ws, (alens, blocks))) => {
+                                let total_a: usize = alens.iter().sum();
+                                let data = data[..total_a].to_vec();
                                 let has_match = blocks.iter().any(|b| b["seqs"].as_array().unwrap().iter().any(|s| s[2].as_u64().unwrap() > 0));
                                 if has_match {
                                     with_match += 1;
                                 }
                                 // all runs with a match, a sample of the others
                                 if has_match || runs % 53 == 0 {
-                                    let row = json!({"slices": slices, "slice": slice, "ws": ws, "lens": t, "data": data, "blocks": blocks, "minmatch": 5, "builtin": true});
+                                    let row = json!({"slices": slices, "slice": slice, "ws": ws, "lens": alens, "data": data, "blocks": blocks, "minmatch": 5, "builtin": true});
                                     if samples.len() < 2 && has_match {
                                         samples.push(row.clone());
                                     }
@@ -121,14 +130,15 @@ pub fn c17rows(args: &[String]) {
                 runs += 1;
                 let d2 = data.clone();
                 let t2 = t.clone();
-                if let Ok((ws, blocks)) = std::panic::catch_unwind(move || {
+                if let Ok((ws, (alens, blocks))) = std::panic::catch_unwind(move || {
                     let mut m = MatchGeneratorDriver::verif_new(6, slices);
                     m.reset(CompressionLevel::Fastest);
                     (m.window_size(), drive(&mut m, &d2, &t2, 0))
                 }) {
                     if blocks.iter().any(|b| b["seqs"].as_array().unwrap().iter().any(|s| s[2].as_u64().unwrap() > 0)) {
                         with_match += 1;
-                        emit(json!({"slices": slices, "slice": 6, "ws": ws, "lens": t, "data": data, "blocks": blocks, "minmatch": 5, "builtin": true}), &mut w);
+                        let total_a: usize = alens.iter().sum();
+                        emit(json!({"slices": slices, "slice": 6, "ws": ws, "lens": alens, "data": data[..total_a], "blocks": blocks, "minmatch": 5, "builtin": true}), &mut w);
                         rows += 1;
                     }
                 } else {
@@ -153,23 +163,37 @@ pub fn c17rows(args: &[String]) {
         let r = std::panic::catch_unwind(move || -> Result<(), String> {
             let mut m = MatchGeneratorDriver::verif_new(slice, slices);
             m.reset(CompressionLevel::Fastest);
+            let mut lr = SmallRng::seed_from_u64(k as u64 * 77 + 5);
+            if k % 2 == 1 {
+                // a history before the reset: blocks of mixed lengths whose buffers get recycled
+                for j in 0..(1 + k % 4) {
+                    let mut space = m.get_next_space();
+                    let len = (slice / (j + 2)).min(space.len()).min(d2.len());
+                    space.truncate(len);
+                    space.copy_from_slice(&d2[..len]);
+                    m.commit_space(space);
+                    if j % 2 == 0 { m.skip_matching() } else { m.start_matching(|_| {}) }
+                }
+                m.reset(CompressionLevel::Fastest);
+            }
             let ws = m.window_size() as usize;
             let mut pos = 0usize;
-            let mut kept: Vec<usize> = vec![];
+            let mut bi = 0usize;
             while pos < d2.len() {
-                let len = slice.min(d2.len() - pos);
                 let mut space = m.get_next_space();
+                // mixed block lengths: full slices, short ones, and whatever the driver hands out
+                let want = match (k + bi) % 4 { 0 | 1 => slice, 2 => lr.gen_range(1..=slice), _ => (slice / 4).max(1) };
+                bi += 1;
+                let len = want.min(d2.len() - pos).min(space.len());
+                if len == 0 {
+                    return Err("get_next_space returned an empty buffer".into());
+                }
                 space.truncate(len);
                 space.copy_from_slice(&d2[pos..pos + len]);
                 m.commit_space(space);
-                while !kept.is_empty() && kept.iter().sum::<usize>() + len > slice * slices {
-                    kept.remove(0);
-                }
-                let lo = pos - kept.iter().sum::<usize>();
-                kept.push(len);
                 let mut p = pos;
                 let mut err: Option<String> = None;
-                let skip = (pos / slice) % 4 == 3;
+                let skip = bi % 5 == 4;
                 if skip {
                     m.skip_matching();
                     p = pos + len;
@@ -185,8 +209,8 @@ pub fn c17rows(args: &[String]) {
                                     return;
                                 }
                                 p += literals.len();
-                                if match_len < 5 || offset == 0 || offset > ws || p < lo + offset || p + match_len > pos + len {
-                                    err = Some(format!("match at {p}: offset {offset} length {match_len} window {ws} first retained {lo}"));
+                                if match_len < 5 || offset == 0 || offset > ws || p < offset || p + match_len > pos + len {
+                                    err = Some(format!("match at {p}: offset {offset} length {match_len} window {ws}"));
                                     return;
                                 }
                                 if d2[p - offset..p - offset + match_len] != d2[p..p + match_len] {
